@@ -115,6 +115,9 @@ var descHolders = []descHolder{
 	{"var o=hgo('go_array');", "1", false},
 	{"var o=hgo('go_array');", "length", false},
 	{"var o=hgo('go_func');", "length", false},
+	{"var o=hgo('go_ptr_array');", "0", false},
+	{"var o=hgo('go_ptr_array');", "9", false},
+	{"var o=hgo('go_ptr_array_iface');", "1", false},
 	{"var o=hgo('go_map_int');", "1", false},
 	{"var o=Object.seal({get x(){return 1}});", "x", false},
 }
